@@ -1,5 +1,7 @@
 import PercevalModel.Proto
+import PercevalModel.SimProto
 import PercevalModel.Model.C09
+import PercevalModel.Model.C09Run
 
 open Lean PM PM.Proto PM.C09
 
@@ -81,6 +83,102 @@ def optNatOfJson (v : Json) : Except String (Option Nat) :=
   match v with
   | .null => return none
   | _ => return some (← v.getNat?)
+
+
+/-! ### replay of `NoisySamplingSimulator.samples` on recorded draws (`Model/C09Run.lean`) -/
+
+def fockOfJson (j : Json) : Except String (List Nat) := natList j
+
+def fockListOfJson (j : Json) : Except String (List (List Nat)) := do
+  (← j.getArr?).toList.mapM fockOfJson
+
+/-- `[[key, [state, …]], …]` -/
+def streamsOfJson (j : Json) : Except String (AL (List Fock)) := do
+  (← j.getArr?).toList.mapM fun e => do
+    match e with
+    | .arr #[k, v] => pure (← fockOfJson k, ← fockListOfJson v)
+    | _ => throw "bad stream entry"
+
+def heraldsOfJson (j : Json) : Except String (List (Nat × Nat)) := do
+  (← j.getArr?).toList.mapM fun v => do
+    match v with
+    | .arr #[m, x] => pure (← m.getNat?, ← x.getNat?)
+    | _ => throw "bad herald"
+
+def detModeOf : String → Except String DetMode
+  | "none" => pure .none
+  | "threshold" => pure .threshold
+  | "random" => pure .random
+  | s => throw s!"bad detector mode {s}"
+
+def itemOfJson (j : Json) : Except String InItem := do
+  let p ← ratOfJson (← j.getObjVal? "p")
+  if p < 0 ∨ 1 < p then throw "domain"
+  return ⟨← fockListOfJson (← j.getObjVal? "comps"), ← boolOf j "annotated", ← natOf j "n", p⟩
+
+def specOfJson (j : Json) : Except String InSpec := do
+  match (← strOf j "kind") with
+  | "source" =>
+    let pre ← ratOfJson (← j.getObjVal? "pre")
+    let zpp ← ratOfJson (← j.getObjVal? "zpp")
+    if pre < 0 ∨ 1 < zpp ∨ zpp < 0 then throw "domain"
+    return .source (← boolOf j "perfect") (← boolOf j "annotated") (← fockOfJson (← j.getObjVal? "input")) pre zpp
+  | "svd" => return .svd (← (← arrOf j "items").toList.mapM itemOfJson)
+  | k => throw s!"bad spec kind {k}"
+
+def alJson (l : List (Fock × Nat)) : Json :=
+  Json.arr (l.map fun (k, n) => Json.arr #[toJson k, toJson n]).toArray
+
+def runInOfJson (j : Json) : Except String RunIn := do
+  let hs ← heraldsOfJson (← j.getObjVal? "heralds")
+  if ¬ (hs.map (·.1)).Nodup then throw "domain"
+  let ps ← PM.SimProto.psOfJson (← j.getObjVal? "ps")
+  let detMax ← match (← j.getObjVal? "detMax") with
+    | .null => pure none
+    | v => do
+      let l ← (← v.getArr?).toList.mapM optNatOfJson
+      pure (some l)
+  let sel : SelCfg := ⟨← natOf j "filter", hs, ← boolOf j "keep", fun t => ps.eval t, ← detModeOf (← strOf j "det")⟩
+  let gens ← (← arrOf j "gens").toList.mapM fun b => do
+    (← b.getArr?).toList.mapM fockListOfJson
+  return ⟨sel, ← optNat j "ms", ← optNat j "sh", ← boolOf j "psHasCond", detMax, ← specOfJson (← j.getObjVal? "spec"),
+    gens, ← streamsOfJson (← j.getObjVal? "backend"), ← streamsOfJson (← j.getObjVal? "detDraws"), ← natOf j "fuel"⟩
+
+def runOutJson (r : RunOut) : Json :=
+  Json.mkObj [("results", toJson r.results), ("phys", ratToJson r.phys), ("logical", ratToJson r.logical),
+    ("path", .str r.path), ("shots", toJson r.shots), ("notSel", toJson r.notSel),
+    ("notSelPhys", toJson r.notSelPhys), ("asked", toJson r.asked), ("reqs", alJson r.reqs),
+    ("seen", toJson r.seen), ("weights", alJson r.weights), ("prepared", optNatJson r.prepared)]
+
+/-- the same request answered by the LAZY provider started on `lazyOf` of the prepared pooled provider
+(an executable instance of `pooled_run_refines_lazy`); only the loop path -/
+def runLazyCheck (i : RunIn) : Option (List Fock × Nat × Nat × Nat) :=
+  match computeSamples i.maxSamples i.maxShots, i.maxSamples with
+  | .ok (some (q + 1)), some ms =>
+    let prep : Option (Nat × Option Nat × List InDraw × List (List InDraw) × AL Nat) :=
+      match i.spec with
+      | .source _ _ _ prePerf zpp =>
+        match computeSamplesWithPerf (effF i.sel) (q + 1) prePerf zpp i.maxShots, i.gens with
+        | .ok (ps, sh), first :: gs => some (ps, sh, first, gs, estSource [] first)
+        | _, _ => none
+      | .svd items =>
+        let (zpp, maxP) := checkSvd (effF i.sel) items
+        let (trimmed, prePerf) := preprocess (effF i.sel) items maxP (q + 1)
+        match computeSamplesWithPerf (effF i.sel) (q + 1) prePerf zpp i.maxShots with
+        | .ok (ps, sh) => some (ps, sh, [], i.gens, estDist trimmed ps [])
+        | _ => none
+    match prep with
+    | some (ps, sh, first, gs, w) =>
+      if ps = 0 then none
+      else
+        match prepare ⟨[], w, i.backend, []⟩ with
+        | .ok p =>
+          match loopG sfLazy i.sel ms sh none i.fuel (lazyOf p) ⟨[], [], 0, 0, 0, first, gs, [], i.detDraws⟩ with
+          | .ok (_, s) => some (s.out.reverse, s.shots, s.notSel, s.notSelPhys)
+          | .error _ => none
+        | .error _ => none
+    | none => none
+  | _, _ => none
 
 def handleReq (j : Json) : Except String Json := do
   let op ← strOf j "op"
@@ -187,6 +285,29 @@ def handleReq (j : Json) : Except String Json := do
     | .ok ps => return Json.mkObj [("probs", Json.arr (ps.map fun
         | none => Json.null
         | some q => ratToJson q).toArray)]
+  | "replay" =>
+    let i ← runInOfJson j
+    match runSamples i with
+    | .ok r =>
+      let base := runOutJson r
+      if (← boolOf j "lazy") then
+        let lz := match runLazyCheck i with
+          | some (o, a, b, c) => Json.mkObj [("results", toJson o), ("shots", toJson a), ("notSel", toJson b),
+              ("notSelPhys", toJson c)]
+          | none => Json.null
+        return base.setObjVal! "lazy" lz
+      else return base
+    | .error "needDraws" => return Json.mkObj [("need", "backend")]
+    | .error "needInputs" => return Json.mkObj [("need", "inputs")]
+    | .error "needDetDraws" => return Json.mkObj [("need", "detectors")]
+    | .error "fuel" => return Json.mkObj [("need", "fuel")]
+    | .error "domain" => throw "domain"
+    | .error "unreachable" => throw "unreachable"
+    | .error e => return Json.mkObj [("raise", .str e)]
+  | "provconst" =>
+    let n ← natOf j "n"
+    return Json.mkObj [("ceilTenth", toJson ((List.range (n + 1)).map ceilTenth)),
+      ("grow", toJson ((List.range (n + 1)).map grow))]
   | _ => throw s!"unknown op {op}"
 
 def handle (j : Json) : Json :=
